@@ -196,9 +196,9 @@ pub fn case_for(seed: u64, tier: Tier, run: u64) -> Case {
         let (_, _, _, padded) = shape_of(&stmt);
         let mask = match below(&mut rng, 4) {
             0 => 0,
-            1 => 1u32 << below(&mut rng, 11),
-            2 => (1u32 << below(&mut rng, 11)) | (1u32 << below(&mut rng, 11)),
-            _ => (rng.next_u32()) & 0x7ff,
+            1 => 1u32 << below(&mut rng, 15),
+            2 => (1u32 << below(&mut rng, 15)) | (1u32 << below(&mut rng, 15)),
+            _ => (rng.next_u32()) & 0x7fff,
         };
         return Case {
             base: SessionCase { st: stmt, cap_p: vec![padded], cap_v: vec![padded], ext_seed: 0 },
@@ -253,7 +253,8 @@ fn adversary_statement(curve: Curve, which: u64) -> Statement {
     Statement { curve, tlabel: 0, pre: vec![], bases: Bases::Default, ops }
 }
 
-/// bits: 0 beta_i1, 1 beta_o1, 2 sigma1+s1, 3 beta_i2, 4 beta_o2, 5 sigma2+s2, 6..10 tau_1..tau_6
+/// bits: 0 beta_i1, 1 beta_o1, 2 sigma1, 3 beta_i2, 4 beta_o2, 5 sigma2, 6..10 tau_1..tau_6,
+/// 11 s_L1, 12 s_R1, 13 s_L2, 14 s_R2
 fn adv_nonces<F: PrimeField>(mask: u32, seed: u64, n1: usize, n2: usize) -> crate::refprover::Nonces<F> {
     let mut rng = rng_from_u64(seed, "adversary-nonces");
     let mut d = |bit: u32| -> F {
@@ -263,13 +264,13 @@ fn adv_nonces<F: PrimeField>(mask: u32, seed: u64, n1: usize, n2: usize) -> crat
     let beta_i1 = d(0);
     let beta_o1 = d(1);
     let sigma1 = d(2);
-    let s_l1 = (0..n1).map(|_| d(2)).collect();
-    let s_r1 = (0..n1).map(|_| d(2)).collect();
+    let s_l1 = (0..n1).map(|_| d(11)).collect();
+    let s_r1 = (0..n1).map(|_| d(12)).collect();
     let beta_i2 = d(3);
     let beta_o2 = d(4);
     let sigma2 = d(5);
-    let s_l2 = (0..n2).map(|_| d(5)).collect();
-    let s_r2 = (0..n2).map(|_| d(5)).collect();
+    let s_l2 = (0..n2).map(|_| d(13)).collect();
+    let s_r2 = (0..n2).map(|_| d(14)).collect();
     let tau = [d(6), d(7), d(8), d(9), d(10)];
     crate::refprover::Nonces { beta_i1, beta_o1, sigma1, s_l1, s_r1, beta_i2, beta_o2, sigma2, s_l2, s_r2, tau }
 }
